@@ -520,6 +520,9 @@ class Q:
 
     # -- comparisons -> B
     def _cmp(self, o, op):
+        if isinstance(o, (float, np.floating)) and (o != o or o in (
+                float('inf'), float('-inf'))):
+            return bool(op(0.0, float(o)))     # vs +-inf / nan: concrete
         o = Q._co(o)
         if o is None:
             return NotImplemented
